@@ -1467,43 +1467,53 @@ impl OpGen<'_> {
                         Some(i) => *i,
                         None => continue,
                     };
-                    // block-alternate regions are exclusive: nothing else is placed on or inside a
-                    // region that is replaced, and a region that already carries instrumentation is
-                    // not replaced (the property fixes no lowering for those combinations)
+                    // nothing but another block-alternate is placed on or inside a region that is
+                    // replaced, and a region that already carries other instrumentation is not
+                    // replaced (the property fixes no lowering for those combinations). Nested
+                    // block-alternates are explored: the outermost replacement wins. An `else`
+                    // and its own `if` are never both replaced.
+                    // regions are (first, last) with the `if`'s end included for an `else` region
+                    let ext = |body: &[MInstr], i: usize| -> Option<(usize, usize)> {
+                        block_region(body, i).map(|(a, b)| if matches!(body[i].ins, Ins::Else) { (a, b + 1) } else { (a, b) })
+                    };
                     let mut regions: Vec<(usize, usize)> = (0..l.body.len())
                         .filter(|i| l.body[*i].block_alt.is_some())
-                        .filter_map(|i| block_region(&l.body, i))
+                        .filter_map(|i| ext(&l.body, i))
                         .collect();
                     let mut instrumented: Vec<usize> = (0..l.body.len())
                         .filter(|i| {
                             let b = &l.body[*i];
-                            !b.before.ins.is_empty() || !b.after.ins.is_empty() || b.alternate.is_some() || b.has_special()
+                            !b.before.ins.is_empty()
+                                || !b.after.ins.is_empty()
+                                || b.alternate.is_some()
+                                || !b.sem_after.ins.is_empty()
+                                || !b.block_entry.ins.is_empty()
+                                || !b.block_exit.ins.is_empty()
                         })
                         .collect();
                     for s in sites.iter() {
                         let s: &Site = s;
                         if matches!(s.mode, Mode::BlockAlt | Mode::EmptyBlockAlt) {
-                            if let Some(r) = block_region(&l.body, s.instr as usize) {
+                            if let Some(r) = ext(&l.body, s.instr as usize) {
                                 regions.push(r);
+                                continue;
                             }
                         }
                         instrumented.push(s.instr as usize);
                     }
                     let i = instr as usize;
                     if matches!(mode, Mode::BlockAlt | Mode::EmptyBlockAlt) && l.body[i].ins.is_block_style() {
-                        let (a, b) = match block_region(&l.body, i) {
+                        let (a, b2) = match ext(&l.body, i) {
                             Some(r) => r,
                             None => continue,
                         };
-                        // the closing `end` of an `else` region belongs to the `if`: keep it free too
-                        let b2 = if matches!(l.body[i].ins, Ins::Else) { b + 1 } else { b };
-                        if regions.iter().any(|(x, y)| !(b2 < *x || *y < a))
+                        let compatible = |x: usize, y: usize| b2 < x || y < a || (a > x && b2 < y) || (x > a && y < b2);
+                        if regions.iter().any(|(x, y)| !compatible(*x, *y))
                             || instrumented.iter().any(|k| *k >= a && *k <= b2)
                             || (mode == Mode::EmptyBlockAlt && matches!(l.body[i].ins, Ins::If(_)))
                         {
                             continue;
                         }
-                        // an `else` region lies inside an `if` region: the if must not be replaced
                     } else if regions.iter().any(|(x, y)| i >= *x && i <= *y + 1) {
                         continue;
                     }
